@@ -57,8 +57,10 @@ import (
 // ---- (1) who supplies the call options -----------------------------------------
 
 type viaT struct {
-	// Caller: none | all - what the caller itself passes to the call: nothing,
-	// or the case's credentials (when it has any) and a grpc.Peer target
+	// Caller: none | all | two - what the caller itself passes to the call:
+	// nothing, or the case's credentials (when it has any) and a grpc.Peer
+	// target, or (mixed.go) those and a SECOND grpc.PerRPCCredentials option
+	// after them (supplier "caller2")
 	Caller string `json:"caller"`
 	// Layers: outermost first; each is one grpchan.InterceptClientConn around
 	// what is inside it
@@ -66,6 +68,10 @@ type viaT struct {
 	// Prepend: the interceptors put their options in front of the ones they
 	// were given instead of after them
 	Prepend bool `json:"prepend,omitempty"`
+	// Each, when set (mixed.go), gives every supplier of credentials (caller |
+	// caller2 | L1 | L2) a credential with properties of its own instead of the
+	// case's Creds / Require shared by all
+	Each map[string]credSpecT `json:"each,omitempty"`
 }
 
 type layerT struct {
@@ -94,7 +100,10 @@ func (v *viaT) String() string {
 	if v.Prepend {
 		order = "prepended"
 	}
-	return fmt.Sprintf("{caller passes %s; grpchan.InterceptClientConn wrappers, outermost first: %s; interceptor options %s}", v.Caller, strings.Join(ls, " "), order)
+	if len(ls) == 0 {
+		ls = []string{"none"}
+	}
+	return fmt.Sprintf("{caller passes %s; grpchan.InterceptClientConn wrappers, outermost first: %s; interceptor options %s%s}", v.Caller, strings.Join(ls, " "), order, v.eachString())
 }
 
 // installedSummary: how the wrappers were installed, as far as a report needs
@@ -119,6 +128,9 @@ func (v *viaT) installedSummary() string {
 // caller).
 func (v *viaT) optionOrder() []string {
 	out := []string{"caller"}
+	if v.Caller == "two" {
+		out = append(out, "caller2")
+	}
 	for i, l := range v.Layers {
 		if !l.active() {
 			continue
@@ -148,7 +160,10 @@ func (c caseT) supplies(who, what string) bool {
 		return false
 	}
 	if who == "caller" {
-		return v.Caller == "all"
+		return v.Caller == "all" || v.Caller == "two"
+	}
+	if who == "caller2" {
+		return v.Caller == "two" && what == "creds"
 	}
 	var i int
 	if _, err := fmt.Sscanf(who, "L%d", &i); err != nil || i < 1 || i > len(v.Layers) {
@@ -225,11 +240,14 @@ func newViaState(c caseT) (*viaState, error) {
 	if c.Via == nil {
 		return vs, nil
 	}
-	if c.Via.Caller != "none" && c.Via.Caller != "all" {
+	if c.Via.Caller != "none" && c.Via.Caller != "all" && c.Via.Caller != "two" {
 		return nil, fmt.Errorf("bad via.caller %q", c.Via.Caller)
 	}
-	if len(c.Via.Layers) < 1 || len(c.Via.Layers) > 2 {
-		return nil, fmt.Errorf("via needs 1 or 2 layers")
+	if len(c.Via.Layers) > 2 || len(c.Via.Layers) < 1 && c.Via.Caller != "two" {
+		return nil, fmt.Errorf("via needs 1 or 2 layers (or a caller passing two credentials options)")
+	}
+	if err := c.Via.checkEach(); err != nil {
+		return nil, err
 	}
 	for _, l := range c.Via.Layers {
 		switch l.Installed {
@@ -247,16 +265,21 @@ func newViaState(c caseT) (*viaState, error) {
 	for i := range c.Via.Layers {
 		whos = append(whos, fmt.Sprintf("L%d", i+1))
 	}
+	// the caller's second credentials option comes last in sups, so that layer i
+	// stays at sups[i+1]
+	if c.Via.Caller == "two" {
+		whos = append(whos, "caller2")
+	}
 	for i, who := range whos {
 		s := &supplier{who: who}
 		// an inactive layer's interceptor (installed for the other kind) still
 		// adds what its Adds says should it ever be run
 		credsToo, peerToo := c.supplies(who, "creds"), c.supplies(who, "peer")
-		if i > 0 && !c.Via.Layers[i-1].active() {
+		if i > 0 && i <= len(c.Via.Layers) && !c.Via.Layers[i-1].active() {
 			credsToo, peerToo = c.Creds != "none" && c.Via.Layers[i-1].addsCreds(), c.Via.Layers[i-1].addsPeer()
 		}
 		if credsToo {
-			s.cr = &cred{c: c, who: who, require: c.Require}
+			s.cr = &cred{c: c, who: who, require: c.requireOf(who)}
 		}
 		if peerToo {
 			s.pr = &peer.Peer{}
@@ -267,10 +290,14 @@ func newViaState(c caseT) (*viaState, error) {
 }
 
 func (vs *viaState) callerOpts() []grpc.CallOption {
-	if vs.c.Via == nil || vs.c.Via.Caller != "all" {
+	if vs.c.Via == nil || vs.c.Via.Caller == "none" {
 		return nil
 	}
-	return vs.sups[0].options()
+	opts := vs.sups[0].options()
+	if vs.c.Via.Caller == "two" {
+		opts = append(opts, vs.sups[len(vs.sups)-1].options()...)
+	}
+	return opts
 }
 
 func (vs *viaState) extend(s *supplier, opts []grpc.CallOption) []grpc.CallOption {
@@ -581,7 +608,7 @@ func (c caseT) connClear() bool {
 
 func credSent(o obsT) string {
 	m := map[string][]string{}
-	for _, k := range []string{"tok", "shared"} {
+	for _, k := range append([]string{"tok", "shared"}, ownKeys...) {
 		if vs := o.Sent[k]; len(vs) > 0 {
 			m[k] = vs
 		}
